@@ -68,7 +68,10 @@ EN_Flag ==  /\ epc = (IF FixF4 THEN "idle" ELSE "ranged")
             /\ flag' = TRUE /\ epc' = (IF FixF4 THEN "flagged" ELSE "done") /\ act' = <<"EN_Flag">>
             /\ UNCHANGED <<npc, stored, enabledInf, cluster, preloaded, delivered, buffered, ncreate>>
 
-NS_Create(n) == /\ npc[n] = "none" /\ npc' = [npc EXCEPT ![n] = "created"]
+\* the namespace informer hands its events to the callback one at a time (one delivery goroutine, and a mutex in
+\* namespaceInformer since the stale-namespace repair): no callback starts while another one is under way
+NoCallbackUnderWay == \A m \in NewNs : npc[m] \in {"none", "started"}
+NS_Create(n) == /\ npc[n] = "none" /\ NoCallbackUnderWay /\ npc' = [npc EXCEPT ![n] = "created"]
                 /\ preloaded' = IF FixF5 THEN preloaded ELSE preloaded \cup {p \in cluster : p[1] = n}
                 /\ act' = <<"NS_Create", n>>
                 /\ UNCHANGED <<epc, flag, stored, enabledInf, cluster, delivered, buffered, ncreate>>
@@ -91,7 +94,7 @@ NS_Start(n) ==
 \* the code has one gate after Store and none between the flag read and start: the replayed behaviours take
 \* NS_Create+NS_Store and NS_Flag+NS_Start as pairs
 NS_CreateStore(n) ==
-  /\ npc[n] = "none" /\ npc' = [npc EXCEPT ![n] = "stored"] /\ stored' = stored \cup {n}
+  /\ npc[n] = "none" /\ NoCallbackUnderWay /\ npc' = [npc EXCEPT ![n] = "stored"] /\ stored' = stored \cup {n}
   /\ preloaded' = IF FixF5 THEN preloaded ELSE preloaded \cup {p \in cluster : p[1] = n}
   /\ act' = <<"NS_CreateStore", n>>
   /\ UNCHANGED <<epc, flag, enabledInf, cluster, delivered, buffered, ncreate>>
